@@ -62,3 +62,7 @@ Definition subn_counts (locs : list nat) (l0 : loopv) (count0 : Z) (cbs : list b
 
 Definition nonzero (l : list nat) : nat := length (filter (fun d => negb (Nat.eqb d 0)) l).
 Definition sum (l : list nat) : nat := fold_right Nat.add 0%nat l.
+
+(* the entry of subn(): `if count < 0: count = 0` - a negative count is no limit, like 0 *)
+Definition subn_entry (locs : list nat) (l0 : loopv) (count : Z) (cbs : list bool) : Z * nat :=
+  subn_counts locs l0 (if count <? 0 then 0 else count) cbs.
